@@ -40,7 +40,7 @@ fn parse_raw1_image(
     let n = blp_header.mipmap_pixels(mimpmap_number);
     let indexed_rgb = reader.read_bytes(n as usize)?;
 
-    let an = (n * blp_header.alpha_bits()).div_ceil(8);
+    let an = (n as u64 * blp_header.alpha_bits() as u64).div_ceil(8);
     let indexed_alpha = reader.read_bytes(an as usize)?;
 
     Ok(Raw1Image {
